@@ -43,6 +43,8 @@ type shared12 struct {
 	long    string
 	bin     []byte
 	garbage [][]byte
+	mapMsgs [][]byte // structs with map fields of one map type and different single entries (read-only)
+	mapTM   map[string]reflect.Type
 	snap    string
 	epool   hessian.Pool
 	dpool   hessian.Pool
@@ -83,6 +85,14 @@ func newShared12() *shared12 {
 			append(append([]byte{}, t.bt[:bytes.IndexByte(t.bt, 0x4a)+9]...), 0x78),       // slice field fed an empty untyped list
 			// class with a field the Go type lacks, holding an instance of a class missing from the type map
 			{'C', 0x03, 'K', '1', '2', 0x92, 0x01, 'a', 0x02, 'z', 'z', 0x60, 0x91, 'C', 0x02, 'N', 'o', 0x91, 0x01, 'q', 0x61, 0x92},
+		}
+		mvals := []interface{}{&zoo.MpStrI32{M: map[string]int32{"a": 1}, End: 1}, &zoo.MpStrI32{M: map[string]int32{"b": 2}, End: 2},
+			&zoo.MpStrStr{M: map[string]string{"k": "v"}, End: 3}, &zoo.MpStrStr{M: map[string]string{"q": ""}, End: 4}, zoo.NamedMap{"x": "y"}, zoo.NamedMap{"z": "w"}}
+		mtm, mnm := unionMaps(mvals...)
+		t.mapTM = mtm
+		for _, mv := range mvals {
+			b, _ := hessian.ToBytes(mv, copyNameMap(mnm))
+			t.mapMsgs = append(t.mapMsgs, b)
 		}
 		tmpl12 = t
 	}
@@ -216,6 +226,27 @@ var bodies12 = []body12{
 		v, err := hessian.ToObject(b, tm)
 		return decRes(v, err, "")
 	}, true},
+	{"decode six values with maps of three map types, one entry each (own Decoder)", func(s *shared12) string {
+		d := hessian.NewDecoder(nil, copyTypeMap(tmpl12.mapTM))
+		var sb strings.Builder
+		for _, b := range tmpl12.mapMsgs {
+			v, err := d.Decode(b)
+			sb.WriteString(decRes(v, err, "") + ";")
+		}
+		return sb.String()
+	}, false},
+	{"package-level ToBytes / ToObject with nil maps (int, string, list, map)", func(s *shared12) string {
+		var sb strings.Builder
+		for _, v := range []interface{}{int32(300), "héllo", []interface{}{int32(1), "two"}, map[interface{}]interface{}{"k": int32(1)}} {
+			b, err := hessian.ToBytes(v, nil)
+			sb.WriteString(encRes(b, err, "") + ";")
+			if err == nil {
+				o, err := hessian.ToObject(b, nil)
+				sb.WriteString(decRes(o, err, "") + ";")
+			}
+		}
+		return sb.String()
+	}, false},
 	{"decode a list nested 48 deep and encode it back (own Serializer)", func(s *shared12) string {
 		z := hessian.NewSerializer(s.tm, s.nm)
 		in := append(bytes.Repeat([]byte{0x79}, 48), 0x91)
